@@ -76,11 +76,13 @@ def outcome_cc(toks):
     different stdout / a different exit code - a fixed function of the
     token sequence."""
     import zlib
-    k = zlib.crc32(('cc' + toks).encode()) % 5
+    k = zlib.crc32(('cc' + toks).encode()) % 6
     if k == 0:
         return (0, 'sat\n', '')
     if k == 1:
         return (3, 'unsat\n', '')
+    if k == 2:
+        return GOLDEN       # behaves like the golden run of the *other* command
     return GOLDEN_CC
 
 
